@@ -1,6 +1,7 @@
 """F-PAIR (paired update of adjacency lists, counters, label store, totals, mirror half-edges),
 F-KEY (canonical key in the undirected family), F-ORD (order-domain guards), F-POS."""
 import itertools
+import re
 
 from .events import events_of, summary_of, Ev
 from .ir import AnalysisBroken
@@ -172,7 +173,9 @@ class Ctx:
             d = self.fn.unit.decl(t[1])
             if d['dk'] == 'Var' and d.get('constq') and not d.get('isref') and \
                     d.get('ctype', '').replace('const ', '') in ('unsigned int', 'bool', 'unsigned long', 'int',
-                                                                 'std::pair<unsigned int, unsigned int>'):
+                                                                 'std::pair<unsigned int, unsigned int>', 'char', 'double',
+                                                                 'unsigned char', 'long', 'long long', 'unsigned long long') or \
+                    (d['dk'] == 'Var' and re.match(r'^const char ?(\[\d*\]|\*( const)?)$', d.get('ctype', '')) is not None):
                 defs = var_defs(self.fn, t[1])
                 if len(defs) == 1 and defs[0][1] >= 0:
                     return self.unconst(strip_cast(self.tt.t(defs[0][1])), depth + 1)
@@ -712,6 +715,16 @@ def removed_count_term(ctx, ev, t):
     if t[0] == 'var':
         defs = var_defs(f, t[1])
         if len(defs) == 1 and defs[0][1] >= 0:
+            dt = strip_cast(ctx.tt.t(defs[0][1]))
+            while dt[0] == 'cast':
+                dt = strip_cast(dt[2])
+            if dt[0] == 'call' and dt[1] == 'std::count' and len(dt[2]) == 3 and ev.kind == 'A.removeAll' and len(ev.args) > 1:
+                # the number of entries equal to the value, counted on the same list just before remove(value) erases them
+                b0, e0, v0 = dt[2]
+                same_list = b0[0] == 'mcall' and b0[1].endswith(('::begin', '::cbegin')) and e0[0] == 'mcall' and \
+                    e0[1].endswith(('::end', '::cend')) and b0[2] == e0[2] and b0[2][0] == 'idx' and b0[2][2] == x and \
+                    ctx.ev.role(b0[2][1]) == 'A'
+                return bool(same_list and strip_cast(v0) == strip_cast(ev.args[1]) and f.node_dominates(defs[0][0], ev.node))
             if not f.can_reach(ev.node, defs[0][0]) and f.strip(defs[0][1]) != ev.node:
                 return False
             return removed_count_term(ctx, ev, ctx.tt.t(defs[0][1]))
@@ -1792,6 +1805,9 @@ class PairEngine:
                 want = 'T.add' if c.kind == 'L.addAssign' else 'T.sub'
                 good = [t for t in self.companions(ctx, want)
                         if strip_cast(t.args[0]) == strip_cast(c.args[1]) and ctx.region(t.node) == ctx.region(c.node)]
+                if not good and c.kind == 'L.addAssign':
+                    jt = self._joined_total(ctx, c.node, c.args[1])
+                    good = [jt] if jt is not None else []
                 if len(good) == 1:
                     self.ok('F-PAIR.T', ctx, dict(function=f.display(), event=ctx.desc(c.node), companion=ctx.desc(good[0].node)))
                 else:
@@ -1835,6 +1851,89 @@ class PairEngine:
                                   'with the old value read before the overwrite, in the same control region')
 
     # -------------------------------------------------------------------------------------------- calls into a base class
+    def _call_label_arg(self, ctx, nid, g):
+        """the argument of a call to a base insertion that becomes the stored label (None if not identifiable)"""
+        f = ctx.fn
+        args = [ctx.tt.t(a) for a in f.nodes[nid].get('args', [])]
+        gctx = Ctx(self.m, g)
+        lp = None
+        for ls in self.label_sets(gctx):
+            v = ls['value']
+            if v[0] == 'var' and v[1] in g.params:
+                lp = g.params.index(v[1])
+        if lp is None or lp >= len(args):
+            return None
+        return args[lp]
+
+    def _label_deltas(self, ctx):
+        """[(node, amount)] events that add `amount` to the stored label of a pair: `store[k] += m` and calls of a base
+        insertion with label argument m"""
+        f = ctx.fn
+        out = []
+        for c in ctx.ev.events:
+            if c.kind == 'L.addAssign':
+                out.append((c.node, strip_cast(c.args[1])))
+        for nid, g in self.m.callees(f):
+            n = f.nodes[nid]
+            if n['k'] != 'CXXMemberCallExpr' or g.is_const or g.record not in (LDG, LUG) or ctx.tt.t(n.get('obj', -1)) != ('this',):
+                continue
+            kinds = summary_of(self.m, g).kinds
+            if 'A.push' in kinds and not any(k.startswith(('A.remove', 'A.erase', 'A.clear')) for k in kinds):
+                lab = self._call_label_arg(ctx, nid, g)
+                if lab is not None:
+                    out.append((nid, strip_cast(lab)))
+        return out
+
+    def _joined_total(self, ctx, nid, amount):
+        """`if (c) {A: label += m} else {B: label += m}  total += m;` - the update of the total written once after the arms of
+        a branch, each of which changes a stored label by the same amount: every path that reaches the update passes through
+        exactly one of those changes.  Returns the T.add event or None."""
+        f = ctx.fn
+        amount = strip_cast(amount)
+        deltas = [n2 for (n2, a2) in self._label_deltas(ctx) if a2 == amount]
+        if nid not in deltas:
+            return None
+        for t in self.companions(ctx, 'T.add'):
+            if strip_cast(t.args[0]) != amount or not f.can_reach_forward(nid, t.node):
+                continue
+            if not (ctx.region(t.node) < ctx.region(nid)):
+                continue
+            tpos = f.cfg_pos(t.node)
+            dpos = {f.cfg_pos(d): d for d in deltas if f.cfg_pos(d) is not None}
+            if tpos is None:
+                continue
+            ok = True
+            seen = set()
+            work = [(f.entry, 0, ())]
+            steps = 0
+            while work and ok:
+                blk, cnt, trail = work.pop()
+                steps += 1
+                if steps > 4000 or blk in trail:
+                    ok = False      # (a cycle or too many paths: not this simple shape)
+                    break
+                b = f.blocks[blk]
+                reached = False
+                for ix in range(len(b.elems)):
+                    if (blk, ix) in dpos:
+                        cnt += 1
+                    if (blk, ix) == tpos:
+                        reached = True
+                        break
+                if reached:
+                    if cnt != 1:
+                        ok = False
+                    continue
+                if (blk, cnt) in seen:
+                    continue
+                seen.add((blk, cnt))
+                for sx in b.succs:
+                    if sx is not None and sx >= 0:
+                        work.append((sx, cnt, trail + (blk,)))
+            if ok:
+                return t
+        return None
+
     def check_calls(self, ctx):
         f = ctx.fn
         if not ctx.has_total:
@@ -1872,6 +1971,9 @@ class PairEngine:
                 lab = args[lp]
                 good = [t for t in self.companions(ctx, 'T.add')
                         if strip_cast(t.args[0]) == strip_cast(lab) and ctx.region(t.node) == ctx.region(nid)]
+                if not good:
+                    jt = self._joined_total(ctx, nid, lab)
+                    good = [jt] if jt is not None else []
                 if len(good) == 1:
                     R.ok(dict(function=f.display(), event='call ' + ctx.desc(nid), companion=ctx.desc(good[0].node),
                               form='call-site pairing: base insertion <-> total += label argument'), fn=f.display())
